@@ -4,43 +4,72 @@
 (* A PKI is a finite sequence of ABSTRACT certificates (id = index).  A key is an *)
 (* integer; "certificate c carries a signature by key k" is the field signedBy    *)
 (* (Dolev-Yao: a signature verifies under a key iff it was made with it).  Time   *)
-(* is an integer.  A DNS name / DNS name constraint is a sequence of labels, top  *)
-(* level first (<<"example", "b", "www">> = www.b.example).                        *)
+(* is an integer.  A name (subjectAltName entry) or name constraint is a record     *)
+(* [ty, v, local]: ty in {"dns", "ip", "email", "uri"}; v a sequence of strings -     *)
+(* DNS labels / host labels top level first (<<"example", "b", "www">> =              *)
+(* www.b.example), or the leading octets of an IPv4 address; local = the local part   *)
+(* of a mailbox ("" otherwise).                                                        *)
 (*                                                                                *)
 (*   cert = [id, subj, issuerName, spk, signedBy, bc in {"ca","notca","absent"},   *)
 (*           pathLen (-1 = none), nb, na, ku (set; {} = extension absent),         *)
-(*           eku (set; {} = absent), permitDNS, excludeDNS, sanDNS (sets), pos]    *)
+(*           eku (set; {} = absent), permit, exclude, san (sets of names), pos]    *)
 (*                                                                                *)
 (* ValidChains is the DECLARATIVE statement of the rules property C15 names:       *)
 (* signature link, names chain, CA flag + certSign key usage, validity period of   *)
-(* every element, path length, DNS name constraints of every CA applied to every   *)
-(* name claimed below it, (plain) extended-key-usage nesting, and - if the request *)
-(* names a host - the leaf claims it.  GoVerify is an ALGORITHM-shaped sibling: a  *)
+(* every element, path length, name constraints of every CA applied to every name  *)
+(* claimed below it, (plain) extended-key-usage nesting, and - if the request names *)
+(* a host - the leaf claims it.  GoVerify is an ALGORITHM-shaped sibling: a  *)
 (* transcription of smx509/verify.go (Verify, buildChains, isValid,                *)
 (* alreadyInChain, checkChainForKeyUsage) on abstract certificates; it produces no *)
 (* verdict about the code, it is what ChainSound / NoChainWhenNoneValid / Complete *)
 (* are checked against ON THE MODEL.  Deliberately not modelled: the signature-    *)
-(* check budget (100), SHA-1 / MD5 policy, unhandled critical extensions, IP /     *)
-(* e-mail / URI / directory-name constraints, wildcard host names, EKU OIDs other  *)
-(* than serverAuth / clientAuth / anyExtendedKeyUsage.                             *)
+(* check budget (100), SHA-1 / MD5 policy, unhandled critical extensions,           *)
+(* directory-name constraints, the constraint forms on which Go departs from the    *)
+(* letter of RFC 5280 (host-form e-mail / URI constraints, leading-period DNS        *)
+(* constraints), wildcard host names, EKU OIDs other than serverAuth / clientAuth /  *)
+(* anyExtendedKeyUsage.                                                              *)
 EXTENDS Integers, Sequences, FiniteSets
 
 WinLo == 2            \* the common validity window of undamaged certificates
 WinHi == 8
-LeafName  == <<"example", "b", "www">>
-OtherName == <<"example", "a", "www">>
-ZoneB == <<"example", "b">>
-ZoneA == <<"example", "a">>
+Nm(ty, v, local) == [ty |-> ty, v |-> v, local |-> local]
+LeafHost  == <<"example", "b", "www">>
+OtherHost == <<"example", "a", "www">>
+LeafName  == Nm("dns", LeafHost, "")
+OtherName == Nm("dns", OtherHost, "")
+LeafIP    == Nm("ip", <<"192", "0", "2", "7">>, "")
+LeafMail  == Nm("email", <<"example", "b", "mail">>, "user")
+LeafURI   == Nm("uri", <<"example", "b", "svc">>, "")
+LeafNames == {LeafName, LeafIP, LeafMail, LeafURI}
+ZoneB == Nm("dns", <<"example", "b">>, "")
+ZoneA == Nm("dns", <<"example", "a">>, "")
+NetLeaf  == Nm("ip", <<"192", "0", "2">>, "")              \* 192.0.2.0/24
+NetOther == Nm("ip", <<"10", "1">>, "")                    \* 10.1.0.0/16
+BoxLeaf  == Nm("email", <<"example", "b", "mail">>, "user")   \* the mailbox user@mail.b.example
+BoxOther == Nm("email", <<"example", "b", "mail">>, "other")
+MailZoneB == Nm("email", <<"example", "b">>, "")           \* .b.example: mailboxes on hosts below b.example
+UriZoneB == Nm("uri", <<"example", "b">>, "")              \* .b.example
+UriZoneA == Nm("uri", <<"example", "a">>, "")
 InterNames == <<"I1", "I2", "I3", "I4">>
 
 (* ------------------------------------------------------------------ rules *)
 IsCA(c) == c.bc = "ca"
 MaySign(c) == IsCA(c) /\ (c.ku = {} \/ "certSign" \in c.ku)
 InWindow(c, t) == c.nb <= t /\ t <= c.na
-(* RFC 5280 4.2.1.10: a DNS name satisfies a constraint iff it is the constraint with zero or more labels added on the left *)
-DnsWithin(name, cons) == Len(cons) <= Len(name) /\ SubSeq(name, 1, Len(cons)) = cons
-NameAllowed(name, ca) == /\ \A x \in ca.excludeDNS : ~DnsWithin(name, x)
-                         /\ (ca.permitDNS = {} \/ \E p \in ca.permitDNS : DnsWithin(name, p))
+(* RFC 5280 4.2.1.10.  dNSName: the constraint with zero or more labels added on the left.  iPAddress: the address lies in   *)
+(* the subnet (prefixes of whole octets here).  rfc822Name: a constraint with a local part names one mailbox; the form       *)
+(* ".domain" (local = "", the only host-less form used here) names the mailboxes on hosts strictly below the domain.          *)
+(* URI: the form ".domain": hosts strictly below the domain.                                                                  *)
+Within(v, cons) == Len(cons) <= Len(v) /\ SubSeq(v, 1, Len(cons)) = cons
+Matches(name, cons) ==
+  /\ name.ty = cons.ty
+  /\ IF name.ty \in {"dns", "ip"} THEN Within(name.v, cons.v)
+     ELSE IF name.ty = "email" /\ cons.local # "" THEN name.v = cons.v /\ name.local = cons.local
+     ELSE Within(name.v, cons.v) /\ Len(name.v) > Len(cons.v)
+(* permitted subtrees restrict only the name forms they mention *)
+NameAllowed(name, ca) == /\ \A x \in ca.exclude : ~Matches(name, x)
+                         /\ ((\A p \in ca.permit : p.ty # name.ty) \/ \E p \in ca.permit : Matches(name, p))
+HostsOf(c) == {n.v : n \in {n \in c.san : n.ty = "dns"}}
 Link(child, parent) == /\ child.signedBy = parent.spk
                        /\ child.issuerName = parent.subj
                        /\ MaySign(parent)
@@ -60,9 +89,9 @@ ValidChain(P, ch, lf, rts, ints, r) ==
      /\ \A i \in 1..(n - 1) : Link(C(i), C(i + 1))
      /\ \A i \in 1..n : InWindow(C(i), r.t)
      /\ \A i \in 2..n : C(i).pathLen = -1 \/ (i - 2) <= C(i).pathLen          \* i-2 intermediates lie below element i
-     /\ \A i \in 2..n : \A j \in 1..(i - 1) : \A nm \in C(j).sanDNS : NameAllowed(nm, C(i))
+     /\ \A i \in 2..n : \A j \in 1..(i - 1) : \A nm \in C(j).san : NameAllowed(nm, C(i))
      /\ \A i \in 1..n : EkuAllows(C(i), r.eku)
-     /\ (r.dns = <<>> \/ r.dns \in C(1).sanDNS)
+     /\ (r.dns = <<>> \/ r.dns \in HostsOf(C(1)))
 
 (* all simple paths along Link from the leaf to a trusted root, then the chain-wide rules *)
 RECURSIVE LinkPaths(_, _, _, _)
@@ -82,15 +111,15 @@ ValidChainsBrute(P, lf, rts, ints, r) ==
   {ch \in Arrangements(DOMAIN P, Len(P)) : ch # <<>> /\ ValidChain(P, ch, lf, rts, ints, r)}
 
 (* --------------------------------------- the algorithm of smx509/verify.go *)
-GoAlreadyIn(P, c, chain) == \E i \in 1..Len(chain) : LET d == P[chain[i]] IN d.subj = c.subj /\ d.spk = c.spk /\ d.sanDNS = c.sanDNS
+GoAlreadyIn(P, c, chain) == \E i \in 1..Len(chain) : LET d == P[chain[i]] IN d.subj = c.subj /\ d.spk = c.spk /\ d.san = c.san
 GoCheckSignatureFrom(child, parent) == /\ parent.bc = "ca"                                   \* v3: BasicConstraintsValid /\ IsCA
                                        /\ (parent.ku = {} \/ "certSign" \in parent.ku)
                                        /\ child.signedBy = parent.spk
 GoIsValid(P, kind, c, chain, r) ==
   /\ (chain # <<>> => P[chain[Len(chain)]].issuerName = c.subj)
   /\ ~(r.t < c.nb) /\ ~(r.t > c.na)
-  /\ ((kind # "leaf" /\ (c.permitDNS # {} \/ c.excludeDNS # {}))
-        => \A i \in 1..Len(chain) : \A nm \in P[chain[i]].sanDNS : NameAllowed(nm, c))
+  /\ ((kind # "leaf" /\ (c.permit # {} \/ c.exclude # {}))
+        => \A i \in 1..Len(chain) : \A nm \in P[chain[i]].san : NameAllowed(nm, c))
   /\ (kind = "inter" => c.bc = "ca")
   /\ ((c.bc # "absent" /\ c.pathLen >= 0) => (Len(chain) - 1) <= c.pathLen)
 RECURSIVE GoBuild(_, _, _, _, _)
@@ -102,7 +131,7 @@ GoBuild(P, chain, rts, ints, r) ==
 GoChainEku(P, ch, want) == want = "any" \/ \A i \in 1..Len(ch) : LET c == P[ch[i]] IN c.eku = {} \/ "any" \in c.eku \/ want \in c.eku
 GoVerify(P, lf, rts, ints, r) ==
   IF ~GoIsValid(P, "leaf", P[lf], <<>>, r) THEN {}
-  ELSE IF r.dns # <<>> /\ r.dns \notin P[lf].sanDNS THEN {}
+  ELSE IF r.dns # <<>> /\ r.dns \notin HostsOf(P[lf]) THEN {}
   ELSE {ch \in (IF lf \in rts THEN {<<lf>>} ELSE GoBuild(P, <<lf>>, rts, ints, r)) : GoChainEku(P, ch, r.eku)}
 
 (* --------------------------------------------------------- state machine *)
@@ -119,8 +148,8 @@ cvars == <<pki, roots, inters, leaf, phase, mods, ndef, nk, req, res>>
 
 New(id, subj, iss, spk, by, bc, pos) ==
   [id |-> id, subj |-> subj, issuerName |-> iss, spk |-> spk, signedBy |-> by, bc |-> bc, pathLen |-> -1, nb |-> WinLo, na |-> WinHi,
-   ku |-> IF bc = "ca" THEN {"certSign", "crlSign"} ELSE {"digitalSignature"}, eku |-> {}, permitDNS |-> {}, excludeDNS |-> {},
-   sanDNS |-> {}, pos |-> pos]
+   ku |-> IF bc = "ca" THEN {"certSign", "crlSign"} ELSE {"digitalSignature"}, eku |-> {}, permit |-> {}, exclude |-> {},
+   san |-> {}, pos |-> pos]
 NoReq == Req(0, "any", <<>>)
 NoRes == [valid |-> {}, algo |-> {}]
 Init == /\ pki = << New(1, "R1", "R1", 1, 1, "ca", 0) >> /\ roots = {1} /\ inters = {} /\ leaf = 0 /\ phase = "cas"
@@ -144,7 +173,7 @@ CrossSign(c, p) == /\ phase = "cas" /\ c \in Ids /\ p \in Ids /\ c # p /\ IsCA(p
                    /\ inters' = inters \cup {NextId} /\ phase' = "crossed"
                    /\ UNCHANGED <<roots, leaf, mods, ndef, nk, req, res>>
 AddLeaf(p) == /\ phase \in {"cas", "crossed"} /\ p \in Ids /\ IsCA(pki[p])
-              /\ pki' = Append(pki, [New(NextId, "L", pki[p].subj, nk, pki[p].spk, "notca", pki[p].pos + 1) EXCEPT !.sanDNS = {LeafName}])
+              /\ pki' = Append(pki, [New(NextId, "L", pki[p].subj, nk, pki[p].spk, "notca", pki[p].pos + 1) EXCEPT !.san = LeafNames])
               /\ leaf' = NextId /\ nk' = nk + 1 /\ phase' = "leafed"
               /\ UNCHANGED <<roots, inters, mods, ndef, req, res>>
 SetTrust(S) == /\ phase = "leafed" /\ S # {} /\ S \subseteq roots
@@ -162,8 +191,13 @@ NotYetValid(c) == c \in Ids /\ Change("notyet", c, [pki[c] EXCEPT !.nb = 6], TRU
 DropCA(c)      == c \in Ids /\ IsCA(pki[c]) /\ Change("dropca", c, [pki[c] EXCEPT !.bc = "notca"], TRUE)
 DropBC(c)      == c \in Ids /\ IsCA(pki[c]) /\ Change("dropbc", c, [pki[c] EXCEPT !.bc = "absent"], TRUE)
 WrongUsage(c)  == c \in Ids /\ IsCA(pki[c]) /\ Change("wrongku", c, [pki[c] EXCEPT !.ku = {"digitalSignature", "crlSign"}], TRUE)
-ViolateNC(c)   == c \in Ids /\ IsCA(pki[c]) /\ Change("permitOther", c, [pki[c] EXCEPT !.permitDNS = {ZoneA}], TRUE)
-ExcludedNC(c)  == c \in Ids /\ IsCA(pki[c]) /\ Change("excludeLeaf", c, [pki[c] EXCEPT !.excludeDNS = {ZoneB}], TRUE)
+(* name constraints that the leaf's names violate: a permitted subtree elsewhere (ViolateNC) / an excluded subtree around one (ExcludedNC) *)
+ViolateNC(c)   == c \in Ids /\ IsCA(pki[c]) /\ Change("permitOther", c, [pki[c] EXCEPT !.permit = @ \cup {ZoneA}], TRUE)
+ExcludedNC(c)  == c \in Ids /\ IsCA(pki[c]) /\ Change("excludeLeaf", c, [pki[c] EXCEPT !.exclude = @ \cup {ZoneB}], TRUE)
+ViolateNCOf(ty, c) == c \in Ids /\ IsCA(pki[c]) /\ ty \in {"ip", "email", "uri"}
+                      /\ Change("permitOther-" \o ty, c, [pki[c] EXCEPT !.permit = @ \cup {CASE ty = "ip" -> NetOther [] ty = "email" -> BoxOther [] OTHER -> UriZoneA}], TRUE)
+ExcludedNCOf(ty, c) == c \in Ids /\ IsCA(pki[c]) /\ ty \in {"ip", "email", "uri"}
+                       /\ Change("excludeLeaf-" \o ty, c, [pki[c] EXCEPT !.exclude = @ \cup {CASE ty = "ip" -> NetLeaf [] ty = "email" -> MailZoneB [] OTHER -> UriZoneB}], TRUE)
 WrongEKU(c)    == c \in Ids /\ Change("wrongeku", c, [pki[c] EXCEPT !.eku = {"clientAuth"}], TRUE)
 WrongIssuer(c) == c \in Ids /\ ~SelfSigned(pki[c]) /\ Change("issuerName", c, [pki[c] EXCEPT !.issuerName = "Nobody"], TRUE)
 (* the signature on c was made with a key nobody in the PKI holds *)
@@ -196,14 +230,19 @@ MissingInter(c) == /\ phase = "ready" /\ c \in inters
 SetPathLen(c, k, below) == c \in Ids /\ IsCA(pki[c]) /\ k >= 0
                            /\ Change(IF k < below THEN "pathLenExceeded" ELSE "pathLenTight", c, [pki[c] EXCEPT !.pathLen = k], k < below)
 (* ---- harmless variations *)
-PermitLeafZone(c) == c \in Ids /\ IsCA(pki[c]) /\ Change("permitLeaf", c, [pki[c] EXCEPT !.permitDNS = {ZoneB}], FALSE)
-ExcludeOther(c)   == c \in Ids /\ IsCA(pki[c]) /\ Change("excludeOther", c, [pki[c] EXCEPT !.excludeDNS = {ZoneA}], FALSE)
+PermitLeafZone(c) == c \in Ids /\ IsCA(pki[c]) /\ Change("permitLeaf", c, [pki[c] EXCEPT !.permit = @ \cup {ZoneB}], FALSE)
+ExcludeOther(c)   == c \in Ids /\ IsCA(pki[c]) /\ Change("excludeOther", c, [pki[c] EXCEPT !.exclude = @ \cup {ZoneA}], FALSE)
+(* form: "ip" (the leaf's subnet), "box" (the leaf's mailbox), "maildom" (.b.example), "uri" (.b.example) *)
+PermitLeafOf(form, c) == c \in Ids /\ IsCA(pki[c]) /\ form \in {"ip", "box", "maildom", "uri"}
+                         /\ Change("permitLeaf-" \o form, c, [pki[c] EXCEPT !.permit = @ \cup {CASE form = "ip" -> NetLeaf [] form = "box" -> BoxLeaf
+                                                                                             [] form = "maildom" -> MailZoneB [] OTHER -> UriZoneB}], FALSE)
 KuAbsent(c)       == c \in Ids /\ IsCA(pki[c]) /\ Change("kuAbsent", c, [pki[c] EXCEPT !.ku = {}], FALSE)
 KuCertSignOnly(c) == c \in Ids /\ IsCA(pki[c]) /\ Change("kuCertSign", c, [pki[c] EXCEPT !.ku = {"certSign"}], FALSE)
 EkuServer(c)      == c \in Ids /\ Change("ekuServer", c, [pki[c] EXCEPT !.eku = {"serverAuth"}], FALSE)
 EkuAny(c)         == c \in Ids /\ Change("ekuAny", c, [pki[c] EXCEPT !.eku = {"any", "clientAuth"}], FALSE)
-NoSAN(c)          == c = leaf /\ c \in Ids /\ Change("noSAN", c, [pki[c] EXCEPT !.sanDNS = {}], FALSE)
-TwoNames(c)       == c = leaf /\ c \in Ids /\ Change("twoNames", c, [pki[c] EXCEPT !.sanDNS = {LeafName, OtherName}], FALSE)
+NoSAN(c)          == c = leaf /\ c \in Ids /\ Change("noSAN", c, [pki[c] EXCEPT !.san = {}], FALSE)
+DnsOnly(c)        == c = leaf /\ c \in Ids /\ Change("dnsOnly", c, [pki[c] EXCEPT !.san = {LeafName}], FALSE)
+TwoNames(c)       == c = leaf /\ c \in Ids /\ Change("twoNames", c, [pki[c] EXCEPT !.san = @ \cup {OtherName}], FALSE)
 
 Verify(r) == /\ phase \in {"ready", "verifying"} /\ phase' = "verifying"
              /\ req' = r
@@ -223,7 +262,7 @@ RootSignedTransitively == phase = "verifying" =>
 (* the recursion over Link enumerates exactly the chains of the definition (checked on small instances) *)
 EnumAgrees == phase = "verifying" => res.valid = ValidChainsBrute(pki, leaf, roots, inters, req)
 (* sanity of the model: an undamaged linear PKI inside the window has its chain *)
-UndamagedHasChain == (phase = "verifying" /\ Linear /\ ndef = 0 /\ req.t >= WinLo /\ req.t <= WinHi /\ (req.dns = <<>> \/ req.dns \in pki[leaf].sanDNS)
+UndamagedHasChain == (phase = "verifying" /\ Linear /\ ndef = 0 /\ req.t >= WinLo /\ req.t <= WinHi /\ (req.dns = <<>> \/ req.dns \in HostsOf(pki[leaf]))
                       /\ (\A m \in 1..Len(mods) : mods[m][1] \notin {"twoNames"}))
                      => res.valid # {}
 =============================================================================
